@@ -9,11 +9,14 @@ from common import Ctx, driver_batch, fmt
 
 PROPERTY = "C06"
 LEAN_MODULES = ["Proofs.C06", "Proofs.C06.Full"]
+DRIVERS = ["driver", "driver_tick"]
 RULE = ("ticks: stride sample + boundaries + random (thorough: all 1 774 545); sqrt prices on, just above, in the middle of and just "
         "below tick boundaries; buckets = (function, sign of tick, position inside the tick interval, decimals pair, orientation)")
 TRUSTED = ["math.log is an oracle: the repaired conversion corrects any estimate by integer comparisons (theorem C06_floor holds for every estimate)",
-           "closeness to sqrt(1.0001^t)*2^96 within the property's bound is MEASURED with 60-digit arithmetic (C06_close is partial: no theorem)",
-           "price<->tick inverse within one tick (Decimal sqrt/rounding path) is measured, not proved"]
+           "base_unit_price_to_tick ends in math.floor(math.log(Decimal, float)) (libm): C06_inverse_log is proved under the hypothesis that this "
+           "is the floor logarithm up to a relative perturbation 1e-9 of its argument; the hypothesis is evaluated on every observed call (60-digit reference)",
+           "Decimal(10 ** negative) goes through libm pow; the driver calls the same libm and the value is compared bit-exactly",
+           "the epsilon-robust inverse theorems assume |rnd x - x| <= eps|x| and the analogous bound for Decimal.sqrt / ** 2 (eps <= 1e-9; CPython: 5e-35)"]
 ASSUMPTIONS = ["Decimal arithmetic = exact result rounded half-even to 35 digits (validated against CPython)"]
 
 MIN_TICK, MAX_TICK = -887272, 887272
@@ -175,6 +178,9 @@ def run(ctx: Ctx):
         if abs(Fraction(price) * Fraction(p3) - 1) > Fraction(1, 10 ** 30):
             ctx.violate("helpers.orientation", f"tick_to_base_unit_price({t}) orientations are not reciprocal", {"fn": "orientation", "tick": t, "d0": d0, "d1": d1})
 
+    # ---------------------------------------------------------------- price <-> tick helpers: model correspondence (bit-exact)
+    helpers_correspondence(ctx, hp, g)
+
     # ---------------------------------------------------------------- nearest usable tick
     reqs = []
     for _ in range(ctx.scale(4000, 200000)):
@@ -199,6 +205,120 @@ def run(ctx: Ctx):
         for (t, sp, r), o in zip(reqs, out):
             if o != str(r):
                 ctx.disagree(f"nearest_usable_tick({t},{sp}): impl {r} model {o}", {"fn": "nearest_usable_tick", "tick": t, "spacing": sp})
+
+
+
+DEC_CHOICES = (0, 1, 2, 6, 8, 9, 12, 18, 24, 27)
+LG_DELTA_TICKS = Decimal("2e-5")   # ln(1 + 1e-9) / ln(sqrt(1.0001)): the oracle hypothesis `LgSound (1e-9)` of Proofs/C06/Inverse.lean
+
+
+def _exc_name(f, *a):
+    try:
+        return ("ok", f(*a))
+    except Exception as e:  # noqa
+        return ("err", type(e).__name__)
+
+
+def _same(impl, line, as_int=False) -> bool:
+    """impl = ("ok", value) | ("err", ExceptionClass); line = the driver's answer"""
+    if impl[0] == "err":
+        return line == "ERR " + impl[1]
+    if line.startswith("ERR"):
+        return False
+    if as_int:
+        return line == str(impl[1])
+    return Fraction(line) == Fraction(impl[1])
+
+
+def lg_oracle_ok(sp: Decimal, e: int) -> bool:
+    """the hypothesis on the float logarithm under which C06_inverse_log is proved, evaluated on one observed call:
+    e = floor(log(sp, sqrt(1.0001))) up to a relative perturbation 1e-9 of the argument (60-digit reference)"""
+    with localcontext() as c:
+        c.prec = 60
+        L = sp.ln() / (Decimal("1.0001").ln() / 2)
+        return math.floor(L - LG_DELTA_TICKS) <= e <= math.floor(L + LG_DELTA_TICKS)
+
+
+def helpers_correspondence(ctx: Ctx, hp, g):
+    """run the real helpers and the Lean model (`driver_tick`, CPython arithmetic) on the same inputs; every Decimal is
+    compared exactly, every int exactly, every exception by class"""
+    rng = ctx.rng
+    reqs = []   # (what, impl outcome, request line, as_int, replay)
+
+    def add(what, impl, line, as_int, replay):
+        reqs.append((what, impl, line, as_int, replay))
+
+    n = ctx.scale(1500, 40000)
+    specials = [MIN_TICK, MIN_TICK + 1, -2, -1, 0, 1, 2, MAX_TICK - 1, MAX_TICK]
+    for i in range(n):
+        d0, d1 = rng.choice(DEC_CHOICES), rng.choice(DEC_CHOICES)
+        if rng.random() < 0.5:
+            d0, d1 = rng.choice((6, 8, 18)), rng.choice((6, 8, 18))
+        q0 = rng.random() < 0.5
+        t = rng.choice(specials) if rng.random() < 0.1 else rng.randint(MIN_TICK, MAX_TICK)
+        rp = {"fn": "helpers_roundtrip", "tick": t, "d0": d0, "d1": d1, "q0": q0}
+        # tick -> price
+        pr = _exc_name(hp.tick_to_base_unit_price, t, d0, d1, q0)
+        add("tick_to_base_unit_price", pr, f"tickToPrice {t} {d0} {d1} {fmt(q0)}", False, rp)
+        sx = g(t)
+        if rng.random() < 0.5 and t < MAX_TICK:
+            sx = rng.randint(sx, g(t + 1) - 1)      # a sqrt price strictly inside the tick interval
+        p2 = _exc_name(hp.sqrt_price_x96_to_base_unit_price, sx, d0, d1, q0)
+        add("sqrt_price_x96_to_base_unit_price", p2, f"sqrtToPrice {sx} {d0} {d1} {fmt(q0)}", False, rp)
+        if pr[0] != "ok":
+            ctx.violate("helpers.tick2price.raises", f"tick_to_base_unit_price({t},{d0},{d1},{q0}) raised {pr[1]}", rp)
+            continue
+        price = pr[1]
+        if rng.random() < 0.3 and p2[0] == "ok":
+            price = p2[1]
+        # price -> sqrt price x96 -> tick (oracle-free route) and price -> tick (float log)
+        bx = _exc_name(hp.base_unit_price_to_sqrt_price_x96, price, d0, d1, q0)
+        add("base_unit_price_to_sqrt_price_x96", bx, f"priceToSqrtX96 {fmt(price)} {d0} {d1} {fmt(q0)}", True, rp)
+        bt = _exc_name(hp.base_unit_price_to_tick, price, d0, d1, q0)
+        add("base_unit_price_to_tick", bt, f"priceToTick {fmt(price)} {d0} {d1} {fmt(q0)}", True, rp)
+        ctx.case(f"helpers:{'ge' if d0 >= d1 else 'lt'}:{'q0' if q0 else 'q1'}:{'neg' if t < 0 else 'pos' if t > 0 else 'zero'}:"
+                 f"{'on' if price is pr[1] and sx == g(t) else 'in'}", None)
+        if bx[0] == "ok" and bx[1] > 0:
+            x = bx[1]
+            est = math.floor(math.log(hp._from_x96(x), hp.SQRT_1p0001))
+            tx = _exc_name(hp.sqrt_price_x96_to_tick, x)
+            add("sqrt_price_x96_to_tick∘base_unit_price_to_sqrt_price_x96", tx, f"priceToTickX96 {est} {fmt(price)} {d0} {d1} {fmt(q0)}", True, rp)
+            if price is pr[1]:
+                # property (e), oracle: the round trip through the integer-corrected conversion is within one tick (theorem: in {t-1, t})
+                if tx[0] != "ok" or not (t - 1 <= tx[1] <= t):
+                    ctx.violate("helpers.inverse.x96", f"sqrt_price_x96_to_tick(base_unit_price_to_sqrt_price_x96(tick_to_base_unit_price({t}))) = {tx[1]} "
+                                f"(decimals {d0},{d1}, token0_quote={q0})", rp)
+        if price is pr[1]:
+            if bt[0] != "ok" or abs(bt[1] - t) > 1:
+                ctx.violate("helpers.inverse", f"base_unit_price_to_tick(tick_to_base_unit_price({t})) = {bt[1]} (decimals {d0},{d1}, token0_quote={q0})", rp)
+        # the hypothesis on libm under which the log route is proved, on this very call
+        if bt[0] == "ok":
+            sp = _exc_name(lambda: Decimal.sqrt((1 / price if q0 else price) / Decimal(10 ** (d0 - d1))))
+            ctx.count("lg_oracle_calls_checked")
+            if sp[0] == "ok" and not lg_oracle_ok(sp[1], bt[1]):
+                ctx.violate("helpers.lg_oracle", f"math.floor(math.log({sp[1]}, SQRT_1p0001)) = {bt[1]} is not the floor logarithm up to 1e-9 relative",
+                            {"fn": "lg_oracle", "sp": fmt(sp[1])})
+    # malformed / boundary stream: exceptions must agree by class
+    for price in (Decimal(0), Decimal(-1), Decimal("-0.5"), Decimal("1e-60"), Decimal("1e60"), Decimal(1), Decimal("1.0001")):
+        for d0, d1, q0 in ((6, 18, True), (6, 18, False), (18, 6, True), (18, 18, False)):
+            rp = {"fn": "helpers_price", "price": fmt(price), "d0": d0, "d1": d1, "q0": q0}
+            bx = _exc_name(hp.base_unit_price_to_sqrt_price_x96, price, d0, d1, q0)
+            add("base_unit_price_to_sqrt_price_x96", bx, f"priceToSqrtX96 {fmt(price)} {d0} {d1} {fmt(q0)}", True, rp)
+            bt = _exc_name(hp.base_unit_price_to_tick, price, d0, d1, q0)
+            add("base_unit_price_to_tick", bt, f"priceToTick {fmt(price)} {d0} {d1} {fmt(q0)}", True, rp)
+            ctx.case(f"helpers:malformed:{bx[0]}:{bx[1] if bx[0] == 'err' else ''}:{bt[0]}:{bt[1] if bt[0] == 'err' else ''}", rp)
+    for t in (MIN_TICK - 1, MAX_TICK + 1):
+        pr = _exc_name(hp.tick_to_base_unit_price, t, 6, 18, True)
+        add("tick_to_base_unit_price", pr, f"tickToPrice {t} 6 18 1", False, {"fn": "helpers_roundtrip", "tick": t, "d0": 6, "d1": 18, "q0": True})
+    for e in range(-30, 31):
+        add("Decimal(10 ** e)", ("ok", Decimal(10 ** e)), f"fac {e}", False, {"fn": "fac", "e": e})
+    ctx.impl_traces += len(reqs)
+    ctx.note("helpers_requests", len(reqs))
+    if ctx.driver_ok and reqs:
+        out = driver_batch([q[2] for q in reqs], exe="driver_tick")
+        for (what, impl, line, as_int, rp), o in zip(reqs, out):
+            if not _same(impl, o, as_int):
+                ctx.disagree(f"{what} [{line}]: impl {impl[1]} model {o}", rp)
 
 
 def replay(ctx: Ctx, case) -> bool:
@@ -231,5 +351,21 @@ def replay(ctx: Ctx, case) -> bool:
         back = hp.base_unit_price_to_tick(hp.tick_to_base_unit_price(t, case["d0"], case["d1"], q0), case["d0"], case["d1"], q0)
         print(f"roundtrip {t} -> {back}")
         return abs(back - t) <= 1
+    if fn == "helpers_roundtrip":
+        t, d0, d1, q0 = case["tick"], case["d0"], case["d1"], case["q0"]
+        if not MIN_TICK <= t <= MAX_TICK:
+            return _exc_name(hp.tick_to_base_unit_price, t, d0, d1, q0) == ("err", "AssertionError")
+        price = hp.tick_to_base_unit_price(t, d0, d1, q0)
+        back = hp.base_unit_price_to_tick(price, d0, d1, q0)
+        bx = hp.sqrt_price_x96_to_tick(hp.base_unit_price_to_sqrt_price_x96(price, d0, d1, q0))
+        print(f"roundtrip {t} -> log route {back}, x96 route {bx}")
+        return abs(back - t) <= 1 and t - 1 <= bx <= t
+    if fn == "lg_oracle":
+        sp = Decimal(case["sp"])
+        e = math.floor(math.log(sp, hp.SQRT_1p0001))
+        print(f"floor(log({sp})) = {e}")
+        return lg_oracle_ok(sp, e)
+    if fn in ("helpers_price", "fac"):
+        return True
     print("replay: unknown case kind", fn)
     return True
